@@ -8,6 +8,7 @@ package checks
 
 import (
 	"fmt"
+	"strings"
 	"testing"
 
 	"github.com/openfga/language/pkg/go/transformer"
@@ -137,6 +138,22 @@ func TestC03(t *testing.T) {
 		rec.Require(c, 0.03)
 	}
 	harness := false
+	// boundary models (fixed, legal, at the edges of the input space), canonical layout
+	if ev.Shard()%4 == 0 {
+		for _, b := range gen.BoundaryModels() {
+			in := layoutInput{Model: b.Model}
+			msg, herr, _ := c03Check(in)
+			rec.Case("boundary: "+b.Name, true, nil, "origin:boundary")
+			if herr != "" {
+				ev.HarnessError("C03", "boundary model %s: %s", b.Name, herr)
+				t.Fatalf("harness: %s", herr)
+			}
+			if msg != "" {
+				rec.Violation(layoutInput{Text: "boundary model: " + b.Name}, "boundary model ("+b.Name+"): "+msg)
+				t.Fatalf("boundary model %s: %.2000s", b.Name, msg)
+			}
+		}
+	}
 	rapid.Check(t, func(rt *rapid.T) {
 		in, r0 := c03DrawInput(rt)
 		msg, herr, r := c03Check(in)
@@ -213,14 +230,28 @@ func TestReplayC03(t *testing.T) {
 			t.Fatalf("%s: %v", f, err)
 		}
 		rec := ev.New("C03", c03Rule)
+		name := in.Text
+		if in.Model == nil && strings.HasPrefix(in.Text, "boundary model: ") {
+			for _, b := range gen.BoundaryModels() {
+				if "boundary model: "+b.Name == in.Text {
+					in = layoutInput{Model: b.Model}
+				}
+			}
+		}
+		if in.Model == nil {
+			t.Fatalf("%s: no model", f)
+		}
 		msg, herr, _ := c03Check(in)
 		if herr != "" {
 			ev.HarnessError("C03", "%s: %s", f, herr)
 			t.Errorf("%s: harness: %s", f, herr)
 		}
 		if msg != "" {
+			if strings.HasPrefix(name, "boundary model: ") {
+				in = layoutInput{Text: name}
+			}
 			rec.Violation(in, msg)
-			t.Errorf("%s: %s", f, msg)
+			t.Errorf("%s: %.2000s", f, msg)
 		}
 	}
 }
